@@ -19,6 +19,8 @@ struct Ctx<'a> {
     types: &'a HashMap<TypeId, String>,
     ids: &'a InputIds,
     locals: &'a HashMap<LocalId, u32>,
+    /// upper bound for the event log of one traversal of the function at hand
+    cap: usize,
 }
 
 struct Recorder<'a> {
@@ -27,11 +29,13 @@ struct Recorder<'a> {
     lo: usize,
     hi: usize,
     in_seq_header: bool,
+    /// upper bound for the event log
+    cap: usize,
 }
 
 impl<'a> Recorder<'a> {
     fn new(cx: &'a Ctx<'a>) -> Recorder<'a> {
-        Recorder { cx, out: String::new(), lo: usize::MAX, hi: 0, in_seq_header: false }
+        Recorder { cx, out: String::new(), lo: usize::MAX, hi: 0, in_seq_header: false, cap: cx.cap }
     }
     #[inline(never)]
     fn sample(&mut self) {
@@ -41,6 +45,10 @@ impl<'a> Recorder<'a> {
         self.hi = self.hi.max(a);
     }
     fn tok(&mut self, t: &str) {
+        // a traversal that goes round in circles is stopped (and reported as a panic of the traversal)
+        if self.out.len() > self.cap {
+            panic!("the traversal reports more events than the function can have ({} bytes of event log for a cap of {})", self.out.len(), self.cap);
+        }
         self.sample();
         self.out.push_str(t);
         self.out.push(' ');
@@ -240,7 +248,29 @@ fn run_inner(input: &[u8], rec: &mut Rec) {
     let types: HashMap<TypeId, String> = m.types.iter().map(|t| (t.id(), probe::sig(&m, t.id()))).collect();
     for fid in fids.iter().take(64) {
         let idx = ids.funcs.iter().position(|x| x == fid).map(|p| p.to_string()).unwrap_or_else(|| "-".into());
-        let cx = Ctx { types: &types, ids: &ids, locals: &locals };
+        // size of the function by the harness's own walk: no traversal may report much more than that
+        let cap = {
+            let f = m.funcs.get(*fid).kind.unwrap_local();
+            let (mut n, mut todo) = (0usize, vec![f.entry_block()]);
+            while let Some(q) = todo.pop() {
+                n += 2;
+                for (i, _) in &f.block(q).instrs {
+                    n += 1;
+                    match i {
+                        Instr::Block(b) => todo.push(b.seq),
+                        Instr::Loop(b) => todo.push(b.seq),
+                        Instr::IfElse(b) => {
+                            todo.push(b.consequent);
+                            todo.push(b.alternative);
+                        }
+                        _ => {}
+                    }
+                }
+            }
+            // every event is at most ~40 bytes of log; the edited variants add one instruction per sequence
+            (2 * n + 64) * 48
+        };
+        let cx = Ctx { types: &types, ids: &ids, locals: &locals, cap };
         // immutable traversals
         {
             let f = m.funcs.get(*fid).kind.unwrap_local();
@@ -250,7 +280,12 @@ fn run_inner(input: &[u8], rec: &mut Rec) {
                     rec.push_s(&format!("imm_all.{}", idx), &v.0.out);
                     rec.push_n(&format!("span.imm_all.{}", idx), span(&v.0));
                 }
-                Err(p) => rec.push_s(&format!("panic.imm_all.{}", idx), &p),
+                Err(p) => {
+                    // the first traversal of this function failed (or went round in circles): the further ones,
+                    // which have no event cap of their own, are not attempted
+                    rec.push_s(&format!("panic.imm_all.{}", idx), &p);
+                    continue;
+                }
             }
             let mut v = ImmIds { cx: &cx, r: Recorder::new(&cx) };
             match guarded(|| dfs_in_order(&mut v, f, f.entry_block())) {
@@ -342,7 +377,7 @@ fn run_inner(input: &[u8], rec: &mut Rec) {
         }
         // mutable traversals (the visitors do not change anything)
         {
-            let cx2 = Ctx { types: &types, ids: &ids, locals: &locals };
+            let cx2 = Ctx { types: &types, ids: &ids, locals: &locals, cap };
             let mut v = MutAll(Recorder::new(&cx2));
             let fm = m.funcs.get_mut(*fid).kind.unwrap_local_mut();
             let e = fm.entry_block();
@@ -442,7 +477,7 @@ fn run_inner(input: &[u8], rec: &mut Rec) {
             match r {
                 Ok(n) => {
                     rec.push_n(&format!("term.seqs.{}", idx), n as u64);
-                    let cx3 = Ctx { types: &types, ids: &ids, locals: &locals };
+                    let cx3 = Ctx { types: &types, ids: &ids, locals: &locals, cap };
                     let f = m.funcs.get(*fid).kind.unwrap_local();
                     let mut v = ImmAll(Recorder::new(&cx3));
                     match guarded(|| dfs_in_order(&mut v, f, f.entry_block())) {
